@@ -298,6 +298,10 @@ class TrajectoryStore:
     """Thread ID of active TrajectoryStore instance, if any. Multi-threaded
     access is not allowed. This attribute is used to check for this."""
 
+    _active_in_thread_lock = threading.Lock()
+    """Lock that makes the check and update of `active_in_thread` in the
+    constructor a single atomic step."""
+
     # Allowed constructor arguments by mode:
     #
     # (' ' = not allowed, X = required, ? = optional)
@@ -369,15 +373,18 @@ class TrajectoryStore:
 
         """
 
-        # Check thread activity: must be single-threaded.
-        if TrajectoryStore.active_in_thread is not None:
-            if TrajectoryStore.active_in_thread != threading.get_ident():
-                raise RuntimeError(
-                    'TrajectoryStore: multiple TrajectoryStore instances '
-                    'active in different threads simultaneously.'
-                )
-        else:
-            TrajectoryStore.active_in_thread = threading.get_ident()
+        # Check thread activity: must be single-threaded. The check and the
+        # update are done under a lock: otherwise two threads racing to create
+        # their first store can both find the attribute unset.
+        with TrajectoryStore._active_in_thread_lock:
+            if TrajectoryStore.active_in_thread is not None:
+                if TrajectoryStore.active_in_thread != threading.get_ident():
+                    raise RuntimeError(
+                        'TrajectoryStore: multiple TrajectoryStore instances '
+                        'active in different threads simultaneously.'
+                    )
+            else:
+                TrajectoryStore.active_in_thread = threading.get_ident()
 
         # File access mode for a TrajectoryStore is fixed: if you need to
         # switch mode, close and reopen the store.
